@@ -109,9 +109,9 @@ exec(open(os.path.join(HERE, 'gen_tail3.py')).read())
 # every VERIFIED contract is also checked for C01 (deterministic block execution): no node-local source is called, and
 # every verified callee carries the same clause (assumed / pure summaries are exempt)
 DET = '//@   deterministic[C01.no_node_local_source]'
-# CPC_DET=all: every verified contract; default: the contracts NewEVM (block execution's entry into x/cpc at EVM construction)
-# reaches — with the clause on all ~190 contracts the C01 check repeats the whole of C10 + C11 + C12 + C17 (> 25 min)
-DET_ALL = os.environ.get('CPC_DET', '') == 'all'
+# default: every verified contract (the engine checks a function that belongs to C01 only through this clause for the
+# determinism obligations and covers only); CPC_DET=newevm: only the contracts NewEVM reaches
+DET_ALL = os.environ.get('CPC_DET', '') != 'newevm'
 DET_FUNCS = ['GetParams(', 'GetProtocolCpcVersion(', 'GetAllCustomPrecompiledContractsMeta(', 'GetAllCustomPrecompiledContracts(',
              'func NewCustomPrecompiledContract(', 'func NewErc20CustomPrecompiledContract(', 'func NewCustomPrecompiledContractMethod(',
              ') GetMetadata(', ') GetMethodExecutors(']
